@@ -636,15 +636,15 @@ Lemma x01_maf_net_ldj : forall dim cd width depth s ws bs act c, spec_ok s ->
      (exists J, forall i j, (i <= j)%nat -> (j < dim)%nat -> partial_at F x i j (J i j))).
 Proof.
   intros dim cd width depth s ws bs act c Hs Hw Hb F blk x Hx. subst F blk. cbv beta.
-  split; [exact (maf_log_det_sum dim cd width depth s ws bs act c x Hx)|].
-  split; [intros x' i Hx' Hag; exact (maf_block_indep dim cd width depth s ws bs act c Hw Hb x x' i Hx Hx' Hag)|].
-  split; [intros i Hi; exact (maf_nth dim cd width depth s ws bs act c x i Hx Hi)|].
-  intros Hd. split; [intros i j t Hij Hj; exact (maf_net_nondep dim cd width depth s ws bs act c Hw Hb x i j t Hx Hij Hj)|].
+  split; [apply (maf_log_det_sum dim cd width depth s ws bs act c); assumption|].
+  split; [intros x' i Hx' Hag; apply (maf_block_indep dim cd width depth s ws bs act c); assumption|].
+  split; [intros i Hi; apply (maf_nth dim cd width depth s ws bs act c); assumption|].
+  intros Hd. split; [intros i j t Hij Hj; apply (maf_net_nondep dim cd width depth s ws bs act c); assumption|].
   split.
-  { intros i Hi. refine (maf_net_own dim cd width depth s ws bs act c Hs Hw Hb x i Hx Hi _).
+  { intros i Hi. apply (maf_net_own dim cd width depth s ws bs act c); try assumption.
     rewrite Forall_forall in Hd. apply Hd, nth_In. lia. }
-  split; [intros J HJ; exact (maf_net_ldj dim cd width depth s ws bs act c Hs Hw Hb x J Hx Hd HJ)
-         | exact (maf_net_jacobian_exists dim cd width depth s ws bs act c Hs Hw Hb x Hx Hd)].
+  split; [intros J HJ; apply (maf_net_ldj dim cd width depth s ws bs act c); assumption
+         | apply (maf_net_jacobian_exists dim cd width depth s ws bs act c); assumption].
 Qed.
 
 Lemma x01_coupling_net_ldj : forall ud dim s ws bs act c, spec_ok s -> (ud <= dim)%nat -> ws <> [] ->
@@ -662,8 +662,11 @@ Lemma x01_coupling_net_ldj : forall ud dim s ws bs act c, spec_ok s -> (ud <= di
        coup_log_det ROps ud dim s ws bs act x c = ln (Rabs (detF dim J)) /\ detF dim J <> 0).
 Proof.
   intros ud dim s ws bs act c Hs Hud Hne Hw Hb F blk x Hx. subst F blk. cbv beta.
-  split; [exact (coup_log_det_sum ud dim s ws bs act c Hud x Hx)|].
-  split; [intros i Hi; exact (coup_nth_lo ud dim s ws bs act c v_dummy)|].
+  split; [apply (coup_log_det_sum ud dim s ws bs act c); assumption|].
+  split; [intros i Hi; apply (coup_nth_lo ud dim s ws bs act c); assumption|].
+  split; [intros i H1 H2; apply (coup_nth_hi ud dim s ws bs act c); assumption|].
+  split; [intros i j t H1 H2; apply (coup_block_upd ud dim s ws bs act c); assumption|].
+  intros Hd J HJ. apply (coupling_net_ldj ud dim s ws bs act c); assumption.
 Qed.
 
 Lemma x01_inverse_log_det_law :
